@@ -171,6 +171,16 @@ CHECKS["C04"] = dict(
     note=COMMON_NOTE + " ASE's Calculator.get_property caching rule is modelled (compare_atoms = identical or not); the count clause is "
          "checked for result-caching calculators and not for Hamiltonian moves.")
 
+CHECKS["C20"] = dict(
+    technique="Coq proof over a trace model of the driver/user-object interaction (Model/Protocol.v, Proofs/ProtocolProofs.v, Props/C20.v) + "
+              "functional correspondence (vm_compute) with the protocol events logged by strict user objects in all six drivers",
+    text="Theorems for every table (including the same object under several names), every return value and verdict: a truthy result "
+         "is followed by exactly one evaluate and recorded with the verdict, a falsy one is recorded as not attempted with nothing "
+         "else happening; a rejected trial notifies nobody; after an accepted change of the atom count / cell every move object "
+         "receives exactly one notification carrying exactly the added/removed indices / the new cell. That the real drivers never "
+         "touch anything outside the protocol is established by the tie (strict logging objects), not by a theorem.",
+    ref="§4 C20")
+
 NA_REASON = "check not built yet in this round (see DESIGN.md §8 order of construction); no weaker technique substituted"
 
 
